@@ -20,7 +20,7 @@ import (
 //     sync) is only sent under Recreate / RollingRecreate;
 //   - every DELETE asks for background propagation.
 func (w *world) judgeStrategy(res *syncResult) {
-	if w.cfg.SSA {
+	if w.cfg.SSA || res.Cached == nil {
 		return
 	}
 	methods := map[string]v1alpha1.ChildUpdateMethod{}
